@@ -71,6 +71,9 @@ func init() {
 	EquivSpellings["r5"] = []string{base + pad, "HTTP://A.TEST:80/k216/" + pad, "http://a.test/k216/./" + pad}
 	// r6: a link-local literal with a zone identifier - a host whose decoded text
 	// ("[fe80::1%eth0]") does not parse again
+	// r7: bytes in the query that a Go client can put there by hand and that end up in the cache
+	// key as they are (a raw blank, a tab-free but quote- and backslash-laden value)
+	EquivSpellings["r7"] = []string{"http://a.test/s?q=red shoes&x=a\"b\\c", "HTTP://A.TEST:80/s?q=red shoes&x=a\"b\\c", "http://a.test/./s?q=red shoes&x=a\"b\\c"}
 	EquivSpellings["r6"] = []string{"http://[fe80::1%25eth0]:8080/z/x?q=1", "HTTP://[FE80::1%25eth0]:8080/z/x?q=1", "http://[fe80::1%25eth0]:8080/z/./x?q=1",
 		"http://[fe80::1%25eth0]:8080/z/y/../x?q=1", "http://[fe80::1%25eth0]:8080/%7A/x?q=1"}
 }
@@ -300,6 +303,10 @@ func validationAnswer(t *rapid.T, h *Hist, label string) *world.Reply {
 			n := Pick(t, label+"-newma", int64(0), 10, 60, 3600)
 			h.Note(n)
 			rp.Header = append(rp.Header, H("Cache-Control", "max-age="+itoa(n)))
+			if Pct(t, label+"-upd2", 25) {
+				// the new directives spread over two field lines: all of them replace the stored ones
+				rp.Header = append(rp.Header, H("Cache-Control", Pick(t, label+"-upd2v", "no-cache", "must-revalidate", "no-cache=\"X-Secret\"", "private")))
+			}
 		}
 		if Pct(t, label+"-etag", 30) {
 			rp.Header = append(rp.Header, H("Etag", `"v$S"`))
@@ -355,7 +362,7 @@ func c02like(t *rapid.T, prop string, forceOIC bool) *world.Scenario {
 		Header: [][2]string{H("Date", "$T+0"), H("X-Secret", "mark$S;"), H("X-Other", "mark$S;"), H("X-Plain", "p$S")}}
 	cc = expiresInstead(t, "st", cc, life, &first.Uncond)
 	if len(cc) > 0 {
-		first.Uncond.Header = append(first.Uncond.Header, H("Cache-Control", JoinCC(cc)))
+		first.Uncond.Header = append(first.Uncond.Header, CCLines(t, "st", cc)...)
 	}
 	first.Uncond.Header = append(first.Uncond.Header, validators(t, "val")...)
 	first.Cond = validationAnswer(t, h, "a0")
@@ -407,7 +414,7 @@ func c02like(t *rapid.T, prop string, forceOIC bool) *world.Scenario {
 			Header: [][2]string{H("Date", "$T+0"), H("X-Secret", "mark$S;"), H("X-Other", "mark$S;"), H("X-Plain", "p$S")}}
 		ncc = expiresInstead(t, lbl+"-st", ncc, nlife, &rq.Uncond)
 		if len(ncc) > 0 {
-			rq.Uncond.Header = append(rq.Uncond.Header, H("Cache-Control", JoinCC(ncc)))
+			rq.Uncond.Header = append(rq.Uncond.Header, CCLines(t, lbl+"-st", ncc)...)
 		}
 		rq.Uncond.Header = append(rq.Uncond.Header, validators(t, lbl+"-val")...)
 		rq.Cond = validationAnswer(t, h, lbl+"-a")
